@@ -16,6 +16,7 @@ keys from the root.  The source value is read (snapshot) before the destination 
   m/<dst>/<src>   `node(dst).kids = Move(node(src).kids)`       (move assignment)
   a/<dst>/<src>   `node(dst) = node(src)`                        (tag, then kids)
   p q             `node(dst).kids += node(src).kids` / `+= Move(...)`
+  i/<dst>/<key>/<src>  `node(dst).kids.Insert(key, node(src))`  (the const-value overloads)
 
 All functions recurse on the path (never on the tree), so they are structurally total.
 Not given a meaning here (the harness generator never does them):
@@ -83,6 +84,9 @@ inductive TreeOp where
   | assign (dst src : List (List Nat))
   | merge (dst src : List (List Nat))
   | mergeMove (dst src : List (List Nat))
+  /-- `node(dst).kids.Insert(k, node(src))` (const value): `src` may be any node, in particular an
+  element of the table it is inserted into; it is read before anything changes. -/
+  | insertFrom (dst : List (List Nat)) (k : List Nat) (src : List (List Nat))
 
 /-- One operation; `none` = a path does not exist (the harness answers `bad-path`). -/
 def TreeOp.step (op : TreeOp) (root : Node) : Option Node :=
@@ -115,6 +119,10 @@ def TreeOp.step (op : TreeOp) (root : Node) : Option Node :=
     match getAt root d, getAt root s with
     | some dn, some sn =>
       if d = s then some root else some (setKidsAt (setKidsAt root s []) d (mergeKids dn.kids sn.kids))
+    | _, _ => none
+  | .insertFrom d k s =>
+    match getAt root d, getAt root s with
+    | some dn, some sn => some (setKidsAt root d (putKid dn.kids k sn))
     | _, _ => none
 
 def runTree : List TreeOp → Node → Option (List Node)
